@@ -2,9 +2,12 @@
 
 Histories: for a program with k >= 2 categories pending, all k! orders of single-category sessions
 over the durable project directory versus one combined session.  Oracle: identical syntax tree of
-every test file (hence identical snapshot values).  All events are non-aborting (rec style): with
-`assert`, a run that approves only trim aborts at the first failing comparison and never *reaches*
-later snapshots, which changes the observation set, not the confluence - excluded by construction.
+every test file (hence identical snapshot values).  Most programs use non-aborting events (rec
+style): with `assert`, a run that approves only trim aborts at the first failing comparison and
+never *reaches* later snapshots, which changes the observation set, not the confluence.  A share of
+the programs uses `assert` with == snapshots only (create / fix / update: a session that approves
+any of these lets every comparison pass, so every order reaches every snapshot); such a program is
+discarded when trim turns out to be pending.
 """
 import ast
 import itertools
@@ -28,7 +31,7 @@ LEVEL_NOTE = "trusted: ast.dump equality as 'same final program'; rec-style even
 RULE = ("one run = program (1-4 sites; fix next to update in one container, deletes next to inserts in one list / dict / call, create of a key next to "
         "trim of a key, hand-styled previous content) -> pending set P from the reported categories -> |P|! histories + combined session; distinct = "
         "(P, operation, shared-node shape); non-trivial = |P| >= 2")
-ASSUMPTIONS = ["all events non-aborting", "programs whose sessions do not complete are discarded (C18)"]
+ASSUMPTIONS = ["events are non-aborting, or `assert` on == snapshots with no trim pending (every single-category session then reaches every snapshot)", "programs whose sessions do not complete are discarded (C18)"]
 REAL_VS_STUB = {
     "real": ["inline_snapshot library from /repo/src", "Example.run_inline (bulk)", "pytest + plugin (sample)", "black"],
     "stub": ["the user (order of approvals)", "formatter states"],
@@ -41,8 +44,13 @@ def generate(seed, tier="quick"):
     rng = sub(seed, "program")
     prof = V.draw_profile(sub(seed, "profile"), max_depth=2)
     prof.special = [s for s in prof.special if s not in ("norepr", "complex")]
-    prog = W.gen_program(rng, prof, {"prev": ["edit", "edit", "superset", "subset", "slack", "wrong", "other", "none", "same"], "n_files": (1, 2), "n_sites": (1, 4),
-                                     "n_tests": (1, 2), "styles": ["rec"], "hand": 0.7, "ops": ["eq", "eq", "in", "in", "item", "le", "ge"], "idle": 0.2})
+    asserts = sub(seed, "asserts").random() < 0.3
+    if asserts:
+        prog = W.gen_program(rng, prof, {"prev": ["edit", "edit", "wrong", "other", "none", "same", "same"], "n_files": (1, 2), "n_sites": (2, 5),
+                                         "n_tests": (1, 2), "styles": ["assert", "assert", "rec"], "hand": 0.8, "ops": ["eq"]})
+    else:
+        prog = W.gen_program(rng, prof, {"prev": ["edit", "edit", "superset", "subset", "slack", "wrong", "other", "none", "same"], "n_files": (1, 2), "n_sites": (1, 4),
+                                         "n_tests": (1, 2), "styles": ["rec"], "hand": 0.7, "ops": ["eq", "eq", "in", "in", "item", "le", "ge"], "idle": 0.2})
     # unused + hand-written elements in `in` lists and dict sub-snapshots (trim next to update)
     xr = sub(seed, "extra")
     for f in prog["files"]:
@@ -54,7 +62,7 @@ def generate(seed, tier="quick"):
                     items.insert(xr.randint(0, len(items)), e)
                 s["arg"] = "[" + ", ".join(items) + "]"
     driver = "plugin" if sub(seed, "driver").random() < 0.3 else "inline"
-    return {"program": prog, "driver": driver, "fmt": draw_fmt(sub(seed, "fmt")), "max_orders": 6 if tier == "quick" else 24}
+    return {"program": prog, "driver": driver, "asserts": asserts, "fmt": draw_fmt(sub(seed, "fmt")), "max_orders": 6 if tier == "quick" else 24}
 
 
 def trees(files):
@@ -83,8 +91,9 @@ def execute(case, ctx):
     def ok(res):
         return sim.session_completed(driver, res) and not (driver == "inline" and res.get("raises"))
 
-    # pending set from a probe session that approves nothing
-    _, r0 = sim.run_session(ctx, driver, s0, {"flags": flags([]), "fmt": fmt})
+    # pending set from a probe session that approves nothing (programs with aborting events: from a session that approves everything on a scratch
+    # copy, because a failing assert hides what follows it from a session that approves nothing)
+    _, r0 = sim.run_session(ctx, driver, s0, {"flags": flags(CATS if case.get("asserts") else []), "fmt": fmt})
     if not ok(r0):
         out["discards"]["probe-session-did-not-complete(C18)"] = 1
         return out
@@ -92,6 +101,11 @@ def execute(case, ctx):
     if len(pend) < 2:
         out["discards"]["fewer-than-two-categories-pending"] = 1
         return out
+    if case.get("asserts"):
+        if "trim" in pend:
+            out["discards"]["aborting-events-with-trim-pending"] = 1
+            return out
+        ctx.count("probe_program_with_aborting_events")
     comb, rc = sim.run_session(ctx, driver, s0, {"flags": flags(pend), "fmt": fmt})
     if not ok(rc):
         out["discards"]["combined-session-did-not-complete(C18)"] = 1
@@ -110,7 +124,8 @@ def execute(case, ctx):
         good = True
         for c in order:
             cur, r = sim.run_session(ctx, driver, cur, {"flags": flags([c]), "fmt": fmt})
-            if not ok(r):
+            # (a test of a program with aborting events may fail in a single-category session; the history simply goes on with the next category)
+            if not (sim.session_completed(driver, r) if case.get("asserts") else ok(r)):
                 good = False
                 break
         if not good:
